@@ -77,9 +77,46 @@ func c02r1(c *core.Ctx) {
 			return true
 		})
 	}
-	// stores to pool fields outside the pool's methods
-	for _, f := range m.AllFuncs() {
+	// stores to pool fields outside the pool's own code: its methods, and unexported helper functions that take the pool
+	// as a parameter and are called from nowhere else than the pool's own code
+	own := map[*core.Func]bool{}
+	for _, f := range m.Funcs {
 		if f.Recv == "entityPool" {
+			own[f] = true
+		}
+	}
+	for changed := true; changed; {
+		changed = false
+		for _, g := range m.Funcs {
+			if own[g] || g.Sig == nil || g.Recv != "" || g.Exported() {
+				continue
+			}
+			takesPool := false
+			for i := 0; i < g.Sig.Params().Len(); i++ {
+				if isPtrTo(g.Sig.Params().At(i).Type(), "entityPool") {
+					takesPool = true
+				}
+			}
+			if !takesPool {
+				continue
+			}
+			callers, allOwn := 0, true
+			for _, cs := range m.CallSites() {
+				if cs.Callee == g {
+					callers++
+					if !own[cs.Caller] {
+						allOwn = false
+					}
+				}
+			}
+			if callers > 0 && allOwn {
+				own[g] = true
+				changed = true
+			}
+		}
+	}
+	for _, f := range m.AllFuncs() {
+		if own[f] {
 			continue
 		}
 		core.InspectNoLits(f.Body, func(n ast.Node) bool {
